@@ -131,6 +131,17 @@ class JoinLoop(Transducer):
                         return ("bad-index-test", "index %s %d" % ({"Gt": ">", "Ge": ">=", "Lt": "<", "Le": "<=", "Eq": "==", "Ne": "!="}[op], c))
                     return ("first", zero_when_true if truth else not zero_when_true)
         e = strip_refs(b.trace(d))
+        neg = False
+        e2 = e
+        while e2[0] == "unop" and e2[1] == "Not":
+            neg, e2 = not neg, strip_refs(e2[2])
+        if e2[0] == "call" and e2[1] and e2[1]["path"] == "serde_json::Value::is_null":
+            # `item.is_null()` on the loop element: the kind test spelled as a method
+            tdef = b.blocks[e2[3]]["term"] if isinstance(e2[3], int) and e2[3] >= 0 else None
+            if tdef is not None and tdef["args"] and self._elem_of(tdef["args"][0]):
+                truth = (lab != "0") != neg
+                vs = set(self.b.facts.variants(VALUE))
+                return ("kind", frozenset({"Null"}) if truth else frozenset(vs - {"Null"}))
         if e[0] == "call" and e[1] and e[1]["path"].endswith("String::is_empty"):
             return ("out-empty", lab != "0")
         if e[0] == "unop" and strip_refs(e[2])[0] == "call" and strip_refs(e[2])[1]["path"].endswith("String::is_empty"):
@@ -178,8 +189,8 @@ class JoinLoop(Transducer):
                             src = self.ref_target(x)
                             tag = results.get(src) or results.get(x["place"]["local"])
                             effects.append(("elem", tag or "unknown"))
-                elif re.search(r"as std::ops::Drop>::drop$|::next$", p):
-                    pass
+                elif re.search(r"as std::ops::Drop>::drop$|::next$|^serde_json::Value::is_(null|string|number|boolean|array|object)$", p):
+                    pass       # pure reads of the element's kind: decisions, not effects
                 else:
                     effects.append(("call", p))
                 if t["target"] is not None:
@@ -226,7 +237,8 @@ def judge(ctx, jl, K, cfg, where, fn):
         if infeasible or not kinds:
             continue
         if first is None or opaque:
-            raise Inconclusive("array string form written as a loop whose separator test is not a comparison of the element index with 0 (%s)" % (opaque or "no index test"))
+            ctx.unread(K + ".array-join", "string form of Array (%s)" % cfg, "array string form written as a loop whose separator test is not a comparison of the element index with 0 (%s)" % (opaque or "no index test"), where=where, fn=fn)
+            return True
         is_null = kinds == {"Null"}
         mixed = "Null" in kinds and len(kinds) > 1
         seps = [e for e in effects if e[0] == "sep"]
